@@ -172,8 +172,9 @@ def h_order() -> bool:
     if x == 1:
         last = "0_50000004.pel"
     # deliberately unsorted walk order; two names share the part before '_' (logs created in the same 1/100 s)
-    names = ["m_50000002.pel", "z_50000003.txt", "b_50000001.pel", last, "b_50000000.pel"]
-    files = [(nm, pb.PEL(pb.SRC(), ph=dict(eid=int(nm.split("_")[1][:8], 16)))) for nm in names]
+    names = ["m_50000002.pel", "z_50000003.txt", "b_50000001.pel", last, "b_50000000.pel", "pel", "txt"]
+    eid_of = lambda nm: int(nm.split("_")[1][:8], 16) if "_" in nm else {"pel": 0x50000007, "txt": 0x50000008}[nm]
+    files = [(nm, pb.PEL(pb.SRC(), ph=dict(eid=eid_of(nm)))) for nm in names]
     opt = dict(reverse=rev, extension=ext, every_pel=True)
     try:
         if mode == "n":
@@ -187,7 +188,7 @@ def h_order() -> bool:
     want = sorted(nm for nm in names if ext is None or nm.endswith(ext))
     if rev:
         want = list(reversed(want))
-    want_eids = ["0x" + nm.split("_")[1][:8] for nm in want]
+    want_eids = ["0x%08X" % eid_of(nm) for nm in want]
     conds = [st == 0]
     if mode == "n":
         conds.append(_count(w) == len(want))
